@@ -336,11 +336,86 @@ def trigger_rule():
     return 'bool', cbool(ok)
 
 
+def timestamp_default_zero():
+    """a polled parameter that was never announced (its first read was skipped because the start-up reads were abandoned
+    after a communication failure) still carries the class default of `Parameter.timestamp` when the main loop reaches
+    its slow-poll due test `now > pobj.timestamp + ...`: the default must be the NUMBER 0 (the model starts every time
+    stamp at 0; with None the due test raises TypeError outside every try and the thread dies).  Also pinned: pobj is
+    the Parameter object taken from mobj.parameters and carried through polled_parameters into to_poll"""
+    cls = find_class(parse('frappy/params.py'), 'Parameter')
+    vals = []
+    for s in cls.body:
+        if isinstance(s, ast.Assign) and any(_norm(t) == 'timestamp' for t in s.targets):
+            vals.append(s.value)
+        elif isinstance(s, ast.AnnAssign) and _norm(s.target) == 'timestamp':
+            vals.append(s.value)
+    if len(vals) != 1:
+        raise Shape('expected exactly one class-level assignment `timestamp = <default>` in frappy.params.Parameter')
+    v = vals[0]
+    zero = (isinstance(v, ast.Constant) and isinstance(v.value, (int, float)) and not isinstance(v.value, bool)
+            and v.value == 0)
+    # nothing in Parameter.__init__ replaces the default by something else
+    init = find_func(cls, '__init__')
+    no_init = not any(_norm(t) == 'self.timestamp' for a in walk_type(init, ast.Assign) for t in a.targets)
+    th = _thread()
+    w = _main_while()
+    items = [f for f in walk_type(th, ast.For) if _norm(f.iter) == 'mobj.parameters.items()'
+             and _norm(f.target) in ('(pname,pobj)', 'pname,pobj')]
+    apps = [c for c in walk_type(th, ast.Call) if _norm(c.func) == 'pinfo.polled_parameters.append']
+    plumbing = (len(items) == 1 and len(apps) == 1 and len(apps[0].args) == 1
+                and _norm(apps[0].args[0]) == '(mobj,rfunc,pobj)'
+                and any(apps[0] is c for c in walk_type(items[0], ast.Call))
+                and any(_norm(f.iter) == 'to_poll' and _norm(f.target) in ('(mobj,rfunc,pobj)', 'mobj,rfunc,pobj')
+                        for f in walk_type(w, ast.For)))
+    return 'bool', cbool(zero and no_init and plumbing)
+
+
+def pollinfo_only_polled_modules():
+    """modules with enablePoll = False never get a PollInfo (so `if pinfo and ...` keeps the main loop away from their
+    doPoll and from their parameters): `polled_modules = [m for m in modules if m.enablePoll]` is the only assignment
+    to polled_modules; the only place in the thread where a pollInfo attribute is assigned is the first statement
+    `pinfo = mobj.pollInfo = PollInfo(mobj.pollinterval, self.triggerPoll)` of a top-level `for mobj in polled_modules:`
+    loop without continue/break/else; the class default is `pollInfo = None`"""
+    th = _thread()
+    pm = [a for a in walk_type(th, ast.Assign) if any(_norm(t) == 'polled_modules' for t in a.targets)]
+    others = [n for n in ast.walk(th) if isinstance(n, (ast.AugAssign, ast.AnnAssign)) and _norm(n.target) == 'polled_modules']
+    muts = [c for c in walk_type(th, ast.Call) if isinstance(c.func, ast.Attribute)
+            and _norm(c.func.value) == 'polled_modules']
+    if len(pm) != 1 or pm[0] not in th.body:
+        raise Shape('expected exactly one top-level assignment to polled_modules')
+    sel = _norm(pm[0].value) == '[mforminmodulesifm.enablePoll]' and not others and not muts
+    # every store into an attribute called pollInfo
+    stores = []
+    for a in walk_type(th, ast.Assign):
+        for t in a.targets:
+            for n in ast.walk(t):
+                if isinstance(n, ast.Attribute) and n.attr == 'pollInfo' and isinstance(n.ctx, ast.Store):
+                    stores.append(a)
+    setattrs = [c for c in walk_type(th, ast.Call) if _norm(c.func) == 'setattr']
+    loops = [f for f in th.body if isinstance(f, ast.For) and f.body and f.body[0] in stores]
+    if len(loops) != 1:
+        raise Shape('expected exactly one top-level for loop whose first statement creates the PollInfo')
+    f = loops[0]
+    ok = (sel and len(stores) == 1 and not setattrs
+          and _norm(f.target) == 'mobj' and _norm(f.iter) == 'polled_modules' and not f.orelse
+          and _norm(f.body[0]) == 'pinfo=mobj.pollInfo=PollInfo(mobj.pollinterval,self.triggerPoll)'
+          and not walk_type(f, ast.Continue) and not walk_type(f, ast.Break))
+    dflt = [s.value for s in _module().body if isinstance(s, ast.Assign) and any(_norm(t) == 'pollInfo' for t in s.targets)]
+    ok = ok and len(dflt) == 1 and isinstance(dflt[0], ast.Constant) and dflt[0].value is None
+    # the main loop reaches doPoll / the parameters of a module only through `pinfo = mobj.pollInfo; if pinfo and ...`
+    # (facts main_clock_per_module, refill_all_due, wait_rule); the first reads use polled_modules
+    first = [g for g in walk_type(th, ast.For) if _norm(g.iter) == 'm.pollInfo.polled_parameters']
+    ok = ok and len(first) == 1 and any(
+        _norm(g.iter) == 'polled_modules' and _norm(g.target) == 'm' and any(first[0] is x for x in walk_type(g, ast.For))
+        for g in walk_type(th, ast.For))
+    return 'bool', cbool(ok)
+
+
 FACTS = [max_wait_ticks, startup_wait_ticks, poll_default_read, poll_without_read_func, nopoll_value,
          poll_default_handler, poll_common_rest, thread_collects_only_polled, callpoll_contains_exceptions,
          callpoll_reraise_guarded, mainloop_never_reraises, main_due_rule, wait_rule, slow_fresh_twice,
          refill_rule, trigger_rule, initialreads_contained, startup_single_pass,
-         main_clock_per_module, refill_all_due]
+         main_clock_per_module, refill_all_due, timestamp_default_zero, pollinfo_only_polled_modules]
 
 FINGERPRINTS = {
     'Module.__pollThread': _thread,
